@@ -27,7 +27,7 @@ type specCtx struct {
 	self   string                          // for type invariants
 	pkg    *Pkg                            // package whose scope resolves constants
 	errs   *[]string
-	inPure  bool
+	inPure  int // nesting depth of pure-contract instantiation (the clauses of a pure contract may themselves apply pure functions)
 	classOf func(param string) *Term // payload class of a parameter (0 literal, 1 type/diagnostic, 2 operand)
 }
 
@@ -641,7 +641,7 @@ func (c *specCtx) pureValue(key string, args []*Term) Value {
 			ground = false
 		}
 	}
-	if fc != nil && ground && !c.inPure {
+	if fc != nil && ground && c.inPure < 2 {
 		names := map[string]Value{}
 		for i, n := range fc.Params {
 			if i < len(args) && n != "_" {
@@ -668,7 +668,7 @@ func (c *specCtx) pureValue(key string, args []*Term) Value {
 		if dp, ok := c.e.w.Pkgs[fc.DeclPkg]; ok {
 			subPkg = dp // the clauses of a pure contract may name variables of the package that declares it
 		}
-		sub := &specCtx{e: c.e, names: names, bound: map[string]*Term{}, pkg: subPkg, inPure: true}
+		sub := &specCtx{e: c.e, names: names, bound: map[string]*Term{}, pkg: subPkg, inPure: c.inPure + 1}
 		for _, cl := range fc.Clauses {
 			if cl.Kind == "ensures" {
 				c.e.assume(sub.boolTerm(cl.Expr))
